@@ -73,6 +73,12 @@ pub struct Style {
     pub default_start_end: bool,
     /// trailing text after the root (e.g. "]]>]]>")
     pub trailer: String,
+    /// sites written with a prefix of their own, declared on the element itself
+    /// (`<e7:ok xmlns:e7="..."/>`), whatever the rest of the document uses
+    pub local_prefix: Vec<usize>,
+    /// sites that redundantly declare their namespace again (`xmlns="..."`, or `xmlns:p="..."` if
+    /// the element is written with prefix p)
+    pub redeclare_ns: Vec<usize>,
 }
 
 struct W<'a> {
@@ -93,6 +99,12 @@ impl W<'_> {
         let mut default_ns = parent_default_ns.to_string();
         let newly_declared_start = declared.len();
         let qname = match prefix_of(self.st, n.ns) {
+            _ if self.st.local_prefix.contains(&site) && !n.ns.is_empty() => {
+                // children keep using what is in scope for them: the default namespace in force
+                // (unchanged) or the document-wide prefix (declared where first needed)
+                decls.push((format!("xmlns:e{site}"), n.ns));
+                format!("e{site}:{}", n.name)
+            }
             Some(p) if !n.ns.is_empty() => {
                 if !declared.contains(&n.ns) {
                     decls.push((format!("xmlns:{p}"), n.ns));
@@ -108,6 +120,15 @@ impl W<'_> {
                 n.name.clone()
             }
         };
+        if self.st.redeclare_ns.contains(&site) && !n.ns.is_empty() && !self.st.local_prefix.contains(&site) {
+            let attr = match prefix_of(self.st, n.ns) {
+                Some(p) => format!("xmlns:{p}"),
+                None => "xmlns".to_string(),
+            };
+            if !decls.iter().any(|(k, _)| *k == attr) {
+                decls.push((attr, n.ns));
+            }
+        }
         // attribute namespaces always need a prefix
         let mut attrs: Vec<(String, String)> = Vec::new();
         for (ns, name, value) in &n.attrs {
